@@ -103,6 +103,105 @@ func vtC09PctPtr(v int64) *int64 {
 	return ptr.To[int64](v)
 }
 
+// vtC09PodShape realises a total pod request (what k8s PodRequests reports) in one of five container
+// layouts: one container; two containers; an init container that dominates smaller regular containers;
+// a container plus pod overhead; a restartable (sidecar) init container next to a regular container.
+func vtC09PodShape(pod *corev1.Pod, i int, reqCPU, reqMem int64, rl func(cpu, mem int64, omitZero bool) corev1.ResourceList) {
+	ctr := func(name string, cpu, mem int64, omitZero bool) corev1.Container {
+		return corev1.Container{Name: name, Resources: corev1.ResourceRequirements{Requests: rl(cpu, mem, omitZero)}}
+	}
+	switch i % 5 {
+	case 1:
+		c1c, c1m := reqCPU/3, reqMem/3
+		pod.Spec.Containers = []corev1.Container{ctr("c1", c1c, c1m, false), ctr("c2", reqCPU-c1c, reqMem-c1m, true)}
+	case 2:
+		pod.Spec.InitContainers = []corev1.Container{ctr("i1", reqCPU/2, reqMem, true), ctr("i2", reqCPU, reqMem/2, false)}
+		pod.Spec.Containers = []corev1.Container{ctr("c1", reqCPU/3, reqMem/3, true), ctr("c2", reqCPU/3, reqMem/3, false)}
+	case 3:
+		oc, om := reqCPU/4, reqMem/4
+		pod.Spec.Containers = []corev1.Container{ctr("c1", reqCPU-oc, reqMem-om, true)}
+		pod.Spec.Overhead = rl(oc, om, false)
+	case 4:
+		sc, sm := reqCPU/3, reqMem/3
+		always := corev1.ContainerRestartPolicyAlways
+		side := ctr("s1", sc, sm, false)
+		side.RestartPolicy = &always
+		pod.Spec.InitContainers = []corev1.Container{side}
+		pod.Spec.Containers = []corev1.Container{ctr("c1", reqCPU-sc, reqMem-sm, true)}
+	default:
+		pod.Spec.Containers = []corev1.Container{ctr("c1", reqCPU, reqMem, true)}
+	}
+}
+
+// vtC09LabelStr spells the ratio label of the given kind (coq/C09/Model.v label_scale): the decimal
+// h/scale in one of the forms strconv.ParseFloat accepts; ok=false: no label.
+func vtC09LabelStr(kind, h int64) (string, bool) {
+	switch kind {
+	case 0:
+		return "", false
+	case 1:
+		return fmt.Sprintf("%d.%02d", h/100, h%100), true
+	case 2:
+		return "abc", true
+	case 4:
+		return fmt.Sprintf("%d.%03d", h/1000, h%1000), true
+	case 5: // exponent form: (h/100).(h%100)e-1 = h/1000
+		return fmt.Sprintf("%d.%02de-1", h/100, h%100), true
+	case 6:
+		if h < 10 && h%2 == 0 {
+			return fmt.Sprintf(".%d", h), true
+		}
+		return fmt.Sprintf("+%d.%d", h/10, h%10), true
+	case 7:
+		return fmt.Sprintf("%d.%04d", h/10000, h%10000), true
+	}
+	return "-0.30", true
+}
+
+// vtC09LabelGen draws a label kind and its numerator: boundary-biased (0, 100 %, just below a whole
+// percent, third-decimal 5, float-unfriendly values).
+func vtC09LabelGen(r *rand.Rand, above100 bool) (int64, int64) {
+	kind := []int64{0, 1, 1, 1, 2, 3, 4, 4, 5, 6, 7}[r.Intn(11)]
+	scale := int64(100)
+	switch kind {
+	case 4, 5:
+		scale = 1000
+	case 6:
+		scale = 10
+	case 7:
+		scale = 10000
+	}
+	var h int64
+	switch r.Intn(8) {
+	case 0:
+		h = 0
+	case 1:
+		h = scale
+	case 2:
+		h = scale * 29 / 100 // 0.29*100 = 28.999999999999996
+	case 3:
+		// a whole percent plus a tail of .5 / .59 / .99 percent (third and fourth decimals)
+		h = scale*int64(r.Intn(100))/100 + []int64{scale / 200, scale * 59 / 10000, scale * 99 / 10000, scale/100 - 1}[r.Intn(4)]
+		if h < 0 {
+			h = 0
+		}
+	case 4:
+		h = scale - 1 // 0.9, 0.99, 0.999, 0.9999
+	case 5:
+		if above100 {
+			h = scale + r.Int63n(scale*6/10+1)
+		} else {
+			h = r.Int63n(scale + 1)
+		}
+	default:
+		h = r.Int63n(scale + 1)
+	}
+	if kind == 7 && h > 16383 {
+		h = 16383
+	}
+	return kind, h
+}
+
 func vtC09BRun(x []int64) []int64 { return vtC09BRunWith(x, nil, nil) }
 
 // vtC09BRunWith: with cfg == nil the cluster strategy is the one encoded in x; otherwise the node's
@@ -265,18 +364,7 @@ func vtC09BRunWith(x []int64, cfg *configuration.ColocationCfg, labels map[strin
 		default:
 			pod.Status.QOSClass = corev1.PodQOSBestEffort
 		}
-		// the request is the sum over containers: odd pods spread it over two containers
-		if i%2 == 1 {
-			c1c, c1m := reqCPU/3, reqMem/3
-			pod.Spec.Containers = []corev1.Container{
-				{Name: "c1", Resources: corev1.ResourceRequirements{Requests: vtC09RL(c1c, c1m, false)}},
-				{Name: "c2", Resources: corev1.ResourceRequirements{Requests: vtC09RL(reqCPU-c1c, reqMem-c1m, true)}},
-			}
-		} else {
-			pod.Spec.Containers = []corev1.Container{
-				{Name: "c1", Resources: corev1.ResourceRequirements{Requests: vtC09RL(reqCPU, reqMem, true)}},
-			}
-		}
+		vtC09PodShape(&pod, i, reqCPU, reqMem, vtC09RL)
 		if numa != 0 {
 			st := &extension.ResourceStatus{}
 			for b := 0; b < 6; b++ {
@@ -333,18 +421,54 @@ func vtC09BRunWith(x []int64, cfg *configuration.ColocationCfg, labels map[strin
 			node.Annotations[extension.AnnotationNodeColocationStrategy] = `{"cpuReclaimThresholdPercent":"thirty"}`
 		}
 		lbl := func(key string, kind, h int64) {
-			switch kind {
-			case 0:
-			case 1:
-				node.Labels[key] = fmt.Sprintf("%d.%02d", h/100, h%100)
-			case 2:
-				node.Labels[key] = "abc"
-			default:
-				node.Labels[key] = "-0.30"
+			if v, ok := vtC09LabelStr(kind, h); ok {
+				node.Labels[key] = v
 			}
 		}
 		lbl(extension.LabelCPUReclaimRatio, k1, h1)
 		lbl(extension.LabelMemoryReclaimRatio, k2, h2)
+	}
+	// third-party allocations recorded on the node (Prepare subtracts those of priority koord-batch)
+	tpKind := int64(0)
+	if len(c.in)-c.i >= 3 {
+		var tpCPU, tpMem int64
+		tpKind, tpCPU, tpMem = c.next(), c.next(), c.next()
+		brl := func(cpu, mem int64, omitZero bool) corev1.ResourceList {
+			rl := corev1.ResourceList{}
+			if cpu != 0 || !omitZero {
+				rl[extension.BatchCPU] = *resource.NewQuantity(cpu, resource.DecimalSI)
+			}
+			if mem != 0 || !omitZero {
+				rl[extension.BatchMemory] = *resource.NewQuantity(mem, resource.BinarySI)
+			}
+			return rl
+		}
+		var allocs []slov1alpha1.ThirdPartyAllocation
+		switch tpKind {
+		case 0:
+		case 1:
+			allocs = []slov1alpha1.ThirdPartyAllocation{{Name: "hadoop-yarn", Priority: extension.PriorityBatch, Resources: brl(tpCPU, tpMem, true)}}
+		case 2:
+			allocs = []slov1alpha1.ThirdPartyAllocation{
+				{Name: "a", Priority: extension.PriorityBatch, Resources: brl(tpCPU/3, tpMem-tpMem/3, false)},
+				{Name: "b", Priority: extension.PriorityProd, Resources: brl(tpCPU, tpMem, false)},
+				{Name: "c", Priority: extension.PriorityBatch, Resources: brl(tpCPU-tpCPU/3, tpMem/3, true)},
+			}
+		case 3:
+			node.Annotations[slov1alpha1.NodeThirdPartyAllocationsAnnotationKey] = `{"allocations": [{"name": "x", "priority": "koord-batch", "resources": {"kubernetes.io/batch-cpu": "lots"}}]}`
+		default:
+			allocs = []slov1alpha1.ThirdPartyAllocation{
+				{Name: "m", Priority: extension.PriorityMid, Resources: brl(tpCPU, tpMem, false)},
+				{Name: "f", Priority: extension.PriorityFree, Resources: brl(tpCPU, tpMem, false)},
+			}
+		}
+		if allocs != nil {
+			data, err := json.Marshal(&slov1alpha1.ThirdPartyAllocations{Allocations: allocs})
+			if err != nil {
+				panic(err)
+			}
+			node.Annotations[slov1alpha1.NodeThirdPartyAllocationsAnnotationKey] = string(data)
+		}
 	}
 	for k, v := range labels {
 		node.Labels[k] = v
@@ -364,7 +488,9 @@ func vtC09BRunWith(x []int64, cfg *configuration.ColocationCfg, labels map[strin
 		return []int64{-1}
 	}
 	nr := framework.NewNodeResource(items...)
-	if err := p.Prepare(strategy, node, nr); err != nil {
+	// production (framework.RunNodePrepareExtenders) logs a Prepare error and goes on with the node as
+	// Prepare left it; the only error generated here is the unparsable third-party annotation (kind 3)
+	if err := p.Prepare(strategy, node, nr); err != nil && tpKind != 3 {
 		return []int64{-2}
 	}
 	pub := func(rn corev1.ResourceName) int64 {
@@ -587,23 +713,17 @@ func vtC09BGen(r *rand.Rand, i int) (string, []int64) {
 			}
 			return pct()
 		}
-		ratio := func() int64 {
-			switch r.Intn(6) {
-			case 0:
-				return 0
-			case 1:
-				return 100
-			case 2:
-				return 29 // 0.29*100 = 28.999999999999996
-			case 3:
-				return int64(101 + r.Intn(60))
-			default:
-				return int64(r.Intn(101))
-			}
-		}
-		in = append(in, []int64{0, 1, 1, 2, 2, 3}[r.Intn(6)], opt(), opt(), opt(), opt(),
-			[]int64{0, 1, 1, 1, 2, 3}[r.Intn(6)], ratio(), []int64{0, 1, 1, 1, 2, 3}[r.Intn(6)], ratio())
+		k1, h1 := vtC09LabelGen(r, true)
+		k2, h2 := vtC09LabelGen(r, true)
+		in = append(in, []int64{0, 1, 1, 2, 2, 3}[r.Intn(6)], opt(), opt(), opt(), opt(), k1, h1, k2, h2)
 	}
+	// third-party allocations annotation
+	tpKind := []int64{0, 0, 0, 1, 1, 2, 3, 4}[r.Intn(8)]
+	in = append(in, tpKind)
+	if tpKind == 1 || tpKind == 2 {
+		raise = append(raise, pos(), pos()+1)
+	}
+	in = append(in, amtCPU(capCPU/3), amtCPU(capMem/3))
 	// metamorphic perturbation: raise one consumption input (or lower the node allocatable)
 	if r.Intn(8) != 0 {
 		scale := capMem/4 + 2
